@@ -603,6 +603,8 @@ impl AnyTree {
     #[verifier::external_body]
     pub fn sealed_memtable_count(&self) -> (r: usize) { unimplemented!() }
     #[verifier::external_body]
+    pub fn table_count(&self) -> (r: usize) { unimplemented!() }   // lsm-tree AbstractTree::table_count: a read
+    #[verifier::external_body]
     pub fn l0_run_count(&self) -> (r: usize) { unimplemented!() }
 }
 /// identity of the folder a tree lives in
